@@ -12,9 +12,10 @@ SPEC = {
     'deductive': [
         ('K-prune', 'prune', '.'),
         ('K-update(delayed copied from winner)', 'update', '^update:slot-complete\\[delayed\\]'),
-        ('K-next(delayed inherited)', 'next', '^fields:delayed')],
+        ('K-next(delayed inherited)', 'next', '^fields:delayed'),
+        ("_match_states(expanded = live entries due in this round)", 'match_states', r'^select:')],
     'bounded': [
-        ('pruned-vs-unpruned-and-widening', suites.case_C07, 400, 8000, RULE + '; ' + 'non-trivial = at least one candidate was postponed', '')],
+        ('pruned-vs-unpruned-and-widening', suites.case_C07, 1500, 25000, RULE + '; ' + 'non-trivial = at least one candidate was postponed', '')],
 }
 
 
